@@ -1,0 +1,29 @@
+//go:build verif
+
+package sync
+
+// Contracts for govc (see /verif/DESIGN.md). Comment-only file.
+// sync.Once is modelled sequentially through a ghost field `done`.
+
+// C11: the first call stores fn()'s result, every call returns the stored one.
+//@ func (*ErrOnce).Do(fn)
+//@   props C11
+//@   inline
+//@   requires e != nil
+//@   maypanic
+//@   modifies e.err, e.once.fired
+//@   ensures normal ==> e.once.fired
+//@   ensures normal && old(e.once.fired) ==> result == old(e.err) && e.err == old(e.err)
+//@   ensures normal && !old(e.once.fired) ==> result == app(fn) && e.err == app(fn)
+//@   ensures panics ==> !old(e.once.fired) && apppanics(fn)
+
+//@ func (*ErrOnceWithValue[T]).Do(fn)
+//@   props C11
+//@   inline
+//@   requires e != nil
+//@   maypanic
+//@   modifies e.err, e.value, e.once.fired
+//@   ensures normal ==> e.once.fired
+//@   ensures normal && old(e.once.fired) ==> result0 == old(e.value) && result1 == old(e.err) && e.err == old(e.err) && e.value == old(e.value)
+//@   ensures normal && !old(e.once.fired) ==> result0 == app(fn) && result1 == app1(fn) && e.value == app(fn) && e.err == app1(fn)
+//@   ensures panics ==> !old(e.once.fired) && apppanics(fn)
